@@ -151,6 +151,72 @@ def _closes_when_no_length(fn):
     return any(_is_self_close(m, al) for s in n.orelse for m in ast.walk(s))
 
 
+def _response_names(fn):
+    """Names bound to the result of `<connection>.getresponse()`."""
+    names = set()
+    for n in ast.walk(fn):
+        if isinstance(n, ast.Assign) and isinstance(n.value, ast.Call) and isinstance(n.value.func, ast.Attribute) \
+                and n.value.func.attr == "getresponse":
+            for t in n.targets:
+                if isinstance(t, ast.Name):
+                    names.add(t.id)
+    return names
+
+
+def _closes_response_unread(fn):
+    """Whether the non-200 path (the statements after the exchange `try`) can close the response object without having
+    read it: a `<response>.close()` that is not preceded, at the top level of that path, by an unconditional
+    `<response>.read()`.  A response closed unread makes http.client consider the connection idle while bytes of that
+    exchange may still arrive on it; left open it is `pending` (the model), read to its length it is complete."""
+    t = _exchange_try(fn)
+    if t is None or t not in fn.body:
+        return None
+    resp = _response_names(fn)
+    if not resp:
+        return None
+    al = _aliases(fn)
+
+    def on_response(call, attr):
+        if not (isinstance(call, ast.Call) and isinstance(call.func, ast.Attribute) and call.func.attr == attr):
+            return False
+        obj = call.func.value
+        if isinstance(obj, ast.Name) and obj.id in resp:
+            return True
+        obj = _resolve(obj, al)
+        return isinstance(obj, ast.Name) and obj.id in resp
+
+    def scan(stmts, read):
+        """-> (a close of the unread response is reachable, the response has been read on every path through stmts)"""
+        for st in stmts:
+            if isinstance(st, ast.If):
+                if any(on_response(m, "close") for m in ast.walk(st.test)) and not read:
+                    return True, read
+                if any(on_response(m, "read") for m in ast.walk(st.test)):
+                    read = True
+                bad1, r1 = scan(st.body, read)
+                bad2, r2 = scan(st.orelse, read)
+                if bad1 or bad2:
+                    return True, read
+                read = r1 and r2
+            elif isinstance(st, (ast.Try, ast.With, ast.For, ast.While)):
+                for field in ("body", "orelse", "finalbody"):
+                    bad, _r = scan(getattr(st, field, []) or [], read)
+                    if bad:
+                        return True, read
+                for h in getattr(st, "handlers", []):
+                    bad, _r = scan(h.body, read)
+                    if bad:
+                        return True, read
+            else:
+                if any(on_response(m, "close") for m in ast.walk(st)) and not read:
+                    return True, read
+                if any(on_response(m, "read") for m in ast.walk(st)):
+                    read = True
+        return False, read
+
+    return scan(fn.body[fn.body.index(t) + 1:], False)[0]
+
+
 def _raises_transport_error(fn):
     """After the exchange, the function ends by raising TransportError(host + handler, <response>.status, …)."""
     al = _aliases(fn)
@@ -187,6 +253,7 @@ def facts(src):
     d = _success_statuses(sr) if sr is not None else None
     e = _closes_when_no_length(sr) if sr is not None else None
     f = _raises_transport_error(sr) if sr is not None else None
+    g = _closes_response_unread(sr) if sr is not None else None
     return [
         Fact("singleRequestClosesOnError", "Bool", None if a is None else lean_bool(a), ["C19"],
              "single_request closes the cached connection and re-raises on any exception of the exchange (send, getresponse, parse)",
@@ -201,6 +268,9 @@ def facts(src):
         Fact("singleRequestClosesWhenNoLength", "Bool", None if e is None else lean_bool(e), ["C19"],
              "single_request closes the connection of a non-200 reply that announces no Content-Length (a switch of the model: Lib.closeNoLen)",
              json_value=e),
+        Fact("singleRequestClosesResponseUnread", "Bool", None if g is None else lean_bool(g), ["C19"],
+             "the non-200 path of single_request closes the response object without having read it (the connection then looks "
+             "idle to http.client while bytes of that exchange may still arrive on it)", json_value=g),
         Fact("runRequestEmptyBodyNone", "Bool", None if c is None else lean_bool(c), ["C19"],
              "_run_request returns None for an empty body", json_value=c),
     ]
